@@ -51,6 +51,8 @@ func init() {
 		{"C06", "honestlen", props.C06honest},
 		{"C20", "honestlen", props.C06honest},
 		{"C15", "honestlen", props.C06honest},
+		{"C15", "deltabits", props.DeltaBitsFromDelta},
+		{"C06", "deltabits", props.DeltaBitsFromDelta},
 		{"C11", "selectdrain", props.SelectDrain("p2p", "ot")},
 		{"C11", "unsafeview", props.UnsafeFirst},
 		{"C03", "precedence", props.C03prec},
